@@ -8,6 +8,7 @@ CONSTANTS
   MaxPauses = 0
   TimeoutTicks = 2
   MaxTicks = 3
+  Weaken = "none"
 INVARIANTS ObsFidelity ObsNoHang RTriggerForwarded RNoBinaryWithoutTunnel RProtocolClamped ROnlyAdds RRecovers RSameResult
 CONSTRAINT HW
 POSTCONDITION Accepted
